@@ -112,6 +112,9 @@ def compare(td, tc):
         except (P.NonFinite, P.TooBig):
             pass
     d = tm.diff(td, tc)
+    wit = L.pattern_witness(td, tc)
+    if wit:
+        return R.REFUTED, 'different values for the input bit patterns %s: default %#x, configured %#x (terms differ at %s: default %s ; configured %s)' % (wit[0], wit[1], wit[2], d[0], tm.show(d[1], 4), tm.show(d[2], 4))
     return R.UNDECIDED, 'terms differ at %s: default %s ; configured %s' % (d[0], tm.show(d[1], 4), tm.show(d[2], 4))
 
 
